@@ -83,6 +83,24 @@ def _format(obj, format_spec=""):
 
 _cc._PATCH_REGISTRATIONS[format] = _format
 
+# optional stub (C09 only): repr() of a symbolic str returns "'" + s + "'" without realising it. Exact for the
+# strings the harness admits under this flag (printable ASCII without quotes and backslashes); the harness
+# pre-condition enforces that alphabet. Other strings go through a separate, enumerated partition.
+_repr = _cc._PATCH_REGISTRATIONS[repr]
+from crosshair.libimpl.builtinslib import AnySymbolicStr as _AnySymbolicStr
+
+
+def _repr_stub(obj):
+    with NoTracing():
+        sym = FLAGS["stub_str_repr"] and isinstance(obj, _AnySymbolicStr)
+    if sym:
+        return "'" + obj + "'"
+    return _repr(obj)
+
+
+FLAGS["stub_str_repr"] = False
+_cc._PATCH_REGISTRATIONS[repr] = _repr_stub
+
 STUBS = [
     "pydantic dataclass validation replaced by stdlib dataclasses for hdl21.signal/slice/portref/noconn/role/props/elab.* (inputs assumed well-typed)",
     "CrossHair short-circuiting of contracted builtins disabled",
